@@ -10,6 +10,10 @@ HARNESSES = [
      'rungs': {'quick': [{'defines': ['SGRID=5', 'DGRID=3', 'HMAXH=4095'], 'bound': 'height 1..4096 (symbolic); score in {0, 0.25..1.25} (6 values), difficulty in {0..1.5} (4 values), relative height 0..60 (symbolic), total score 4 values; default payout parameters', 'timeout': 280}],
                'thorough': [{'defines': ['SGRID=16', 'DGRID=8', 'HMAXH=65535'], 'bound': 'height 1..65536, score 17 values up to 4.0, difficulty 9 values up to 4.0, otherwise as quick', 'timeout': 3000}]}},
 ]
+import importlib.util as _ilu
+_rp = _ilu.spec_from_file_location('realspec', os.path.join(os.path.dirname(os.path.abspath(__file__)), '..', 'real', 'spec.py'))
+_real = _ilu.module_from_spec(_rp); _rp.loader.exec_module(_real)
+HARNESSES += _real.PAYOUT_HARNESSES
 EXPLANATION = 'Reward kernels of the real calculator run with symbolic height/relative height; score and difficulty are case-split because 256-bit long division forks per quotient bit.'
 ASSUMPTIONS = ['score/difficulty on a grid, not all values (division kernels need a bit-precise engine with path merging, e.g. CBMC over translated IR, which was not built in this session)',
-               'getPopPayout endorsement selection on the real ALT tree (which endorsements count, difficulty averaging, summation per payout info) is outside', 'default PopPayoutsParams only', 'the tree handed to the calculator is a partial object exposing only getParams()']
+               'getPopPayout endorsement selection on the real ALT tree (which endorsements count, difficulty averaging, summation per payout info) is decided on the scenario space of h_payout only', 'default PopPayoutsParams only', 'the tree handed to the calculator is a partial object exposing only getParams()']
